@@ -206,6 +206,7 @@ def regfile_program(rng):
     st.append("wire seenA : 64; seenA = reg_outputA;")
     st.append("wire seenB : 64; seenB = reg_outputB;")
     st += decoy_banks(rng)
+    st = const_enables(rng, st)
     rng.shuffle(st)
     return "\n".join(st) + "\n"
 
@@ -261,8 +262,29 @@ def mem_program(rng, stationary=None):
           "mem_input = (i10bytes)[16..80];",
           "wire seen : 64; seen = mem_output;"]
     st += decoy_banks(rng)
+    st = const_enables(rng, st)
     rng.shuffle(st)
     return "\n".join(st) + "\n"
+
+
+CONST_ENABLES = ["0", "1", "2", "3", "1 + 1", "4 - 2", "6 & 2", "EN2", "EN3", "0x10", "0x11", "(2 || 0)", "!2", "!0", "5 > 3", "2 * 3"]
+
+
+def const_enables(rng, st):
+    """Sometimes the enable of a memory port is a constant expression - also one whose value does
+    not fit the one-bit wire (the wire then holds bit 0 of it: 2 disables the port, 3 enables it)."""
+    if rng.random() >= 0.3:
+        return st
+    out = []
+    which = rng.choice(["r", "w", "rw"])
+    for line in st:
+        if line.startswith("mem_readbit =") and "r" in which:
+            line = "mem_readbit = %s;" % rng.choice(CONST_ENABLES)
+        elif line.startswith("mem_writebit =") and "w" in which:
+            line = "mem_writebit = %s;" % rng.choice(CONST_ENABLES)
+        out.append(line)
+    out.append("const EN2 = 0x10, EN3 = 0x11;")
+    return out
 
 
 def mem_program_stationary(rng):
@@ -283,6 +305,7 @@ def mem_program_stationary(rng):
           "mem_writebit = %s;" % rng.choice(["(C_n)[50..51]", "(C_n)[50..51] & (C_n)[51..52]", "(C_n)[50..51] | (C_n)[51..52]"]),
           "mem_input = C_n;",
           "wire seen : 64; seen = mem_output;"]
+    st = const_enables(rng, st)
     rng.shuffle(st)
     return "\n".join(st) + "\n"
 
